@@ -450,7 +450,7 @@ class SpecialGen(Gen):
             b = r.choice(others); self.emit(a, 'assignto %d' % b); self.state[b] = 'live'
         elif x < 52 and others:
             b = r.choice(others); self.emit(a, 'massignto %d' % b); self.state[b] = 'live'; self.state[a] = 'moved'
-        elif x < 68 and [t for t in others if self.state[t] == 'live']:
+        elif x < 68 and [t for t in others if self.state[t] == 'live'] and not self.cfg.get('noprop'):
             b = r.choice([t for t in others if self.state[t] == 'live']); self.emit(a, 'swap %d' % b)
         elif x < 76 and none:
             b = r.choice(none); self.emit(a, 'copyallocto %d %d' % (b, r.randrange(2))); self.state[b] = 'live'
@@ -491,7 +491,7 @@ class SpecialGen(Gen):
         r = self.rng
         c = self.cfg
         keys = make_keys(r, self.nkeys + 3, self.style)
-        hdr = ['# profile=%s style=%s nkeys=%d' % ('stream' if self.stream else 'special', self.style, self.nkeys),
+        hdr = (['# judge-only'] if c.get('noprop') else []) + ['# profile=%s style=%s nkeys=%d' % ('stream' if self.stream else 'special', self.style, self.nkeys),
                'cfg %d %d %d %d %d' % (c['spb'], c['lbits'], c['simple'], c['nothrow'], c['destructive'])]
         for k, h in keys.items():
             hdr.append('key %d %d' % (k, h))
